@@ -116,17 +116,22 @@ def _post(ctx):
         per_dialect=[{k: s[k] for k in ("dialect", "nodes", "library", "reachable", "reference_edges", "distinct_reference_names", "max_rank", "node_kinds")} | dict(dangling=len(s["dangling"])) for s in stats],
         sql_synthesised=[r["v"] for r in recs if r.get("t") == "stat" and isinstance(r.get("v"), dict) and "sql_synthesised_for" in r["v"]],
     )
+    # third sentence of the property, as theorems about the parser-engine interpreter (DESIGN.md 6.21):
+    # per dialect `pem_closed` + `pem_never_dangling`, or the exact list of dangling nodes + `pem_dangling_only_listed`
+    import cpem
+    cpem.pem_stage(ctx, dialects=DIALECTS, with_cases=False)
 
 
 CFG = dict(
     prop="C14", level="proof", harness="c14",
-    props_files=["theories/Props/C14.v"], corr_file=None, corr_module=None,
+    props_files=["theories/Props/C14.v", "theories/Props/Pem.v"], corr_file=None, corr_module=None,
     groups={}, pre=_pre, post=_post, harness_timeout=1200,
     design_ref="DESIGN.md 6.14",
     technique="translator: the 13 dialect grammar graphs are dumped from the freshly built code into Gallina terms; a closure "
               "check and a rank certificate proved sound once in Coq are evaluated on them by vm_compute (exhaustive over all "
               "nodes); the dump is validated against behaviour (model simple()/deref vs the real ones for every node/name)",
-    level_text="C14_closed_except_sound / C14_closed_no_dangling: if closed_except_b g K = true then on every path of interpreter "
+    level_text="Pem_dangling_sound / Pem_closed_never_dangling (DESIGN 6.21): for the Gallina interpreter of the parser engine (validated against the real parser under C02) an abort 'Grammar refers to ...' can only name a node whose reference is missing from the dumped graph, and on a closed graph no token stream can cause it; instantiated per dialect by generated theorems. "
+               "C14_closed_except_sound / C14_closed_no_dangling: if closed_except_b g K = true then on every path of interpreter "
                "edges from FileSegment every reference resolves (or is one of the listed known names) and every bracket type "
                "exists; C14_simple_terminates: with a checked rank certificate simple() of every reachable element neither loops "
                "nor hits the self-reference panic; C14_known_finding_is_dangling: every listed known name has a checked path "
